@@ -260,7 +260,7 @@ pub fn eval(expr: Node) -> Result<Number, Box<dyn error::Error>> {
             if sub_expr < -min_one.exp() {
                 return Err("The Lambert W function is not defined for {}.".into());
             }
-            let iterations = (4).max((sub_expr.log10() / 3.0).ceil() as i32);
+            let iterations = (4).max((sub_expr.log10() / 3.0).ceil() as i32).min(128);
             let mut w: f64 = 0.0;
             for _ in 0..iterations {
                 let exp_w = w.exp();
@@ -281,11 +281,14 @@ pub fn eval(expr: Node) -> Result<Number, Box<dyn error::Error>> {
                 Number::Float(x) => x,
             };
             let mut x: i64 = 0;
-            while n > 1.0 {
+            for _ in 0..64 {
+                if !(n > 1.0) {
+                    return Ok(Number::Integer(x));
+                }
                 x += 1;
                 n = (n.log10() / b.log10()).floor();
             }
-            Ok(Number::Integer(x))
+            Err("The iterated logarithm does not converge for this base".into())
         }
         Abs(sub_expr) => {
             let x = eval(*sub_expr)?;
